@@ -32,6 +32,8 @@ def items(tier):
             continue        # concrete finite-difference items of C01 (no symbolic inputs)
         if g["mod"] == "linsolve" and g.get("lda", True):
             continue
+        if g.get("c01_only"):
+            continue        # (real input receiving a complex seed: NumPy's cast to the real part on assignment is not modelled)
         if g["mod"] == "eigensolve_sparse":
             continue        # four runs with independent "any solution" oracles: the comparisons do not finish (C01 has the items)        # LDAWrapper memory between solves is C06/C03 territory; here the plain solver path
         if tier == "quick" and g["id"] in ("aggregation-PNorm-active", "aggregation-SoftMinMax-active", "inverse-n2-cplx",
